@@ -50,6 +50,19 @@ type checkDef struct {
 
 var verifDir = "/verif"
 
+// builtBins are this invocation's private test binaries (and overlay dirs), removed on exit.
+var builtBins []string
+
+func cleanupBuilt() {
+	for _, b := range builtBins {
+		os.Remove(b)
+	}
+	matches, _ := filepath.Glob(filepath.Join(verifDir, ".build", "*", fmt.Sprintf("overlay-%d*", os.Getpid())))
+	for _, m := range matches {
+		os.RemoveAll(m)
+	}
+}
+
 // checks loads harness/worlds/*/checkdef.json.  Each file lists the checks a world serves;
 // entries with the same ID in several worlds are merged into one multi-part check.
 func checks() map[string]*checkDef {
@@ -145,8 +158,17 @@ func goBin() string {
 }
 
 // prepareModfile writes .build/go.mod + go.sum pointing at the repository under test.
+// buildDir is specific to the repository path, so that checks of a scratch copy (mutants)
+// never share go.mod, overlay or binaries with checks of /repo running at the same time.
+func buildDir(repo string) string {
+	if repo == "/repo" {
+		return filepath.Join(verifDir, ".build", "default")
+	}
+	return filepath.Join(verifDir, ".build", "r-"+sim.FP(repo))
+}
+
 func prepareModfile(repo string) string {
-	bd := filepath.Join(verifDir, ".build")
+	bd := buildDir(repo)
 	os.MkdirAll(filepath.Join(bd, "bin"), 0o755)
 	src, err := os.ReadFile(filepath.Join(verifDir, "harness", "go.mod"))
 	if err != nil {
@@ -193,8 +215,8 @@ func buildWorld(c partDef, repo string) string {
 		name += ".race"
 	}
 	if c.Overlay {
-		ov := filepath.Join(verifDir, ".build", "overlay.json")
-		cmd := exec.Command(goBin(), "run", "-modfile="+mod, "./cmd/instrument", "-repo", repo, "-out", filepath.Join(verifDir, ".build", "overlay"), "-json", ov, "-extras", filepath.Join(verifDir, "harness", "overlay"))
+		ov := filepath.Join(buildDir(repo), fmt.Sprintf("overlay-%d.json", os.Getpid()))
+		cmd := exec.Command(goBin(), "run", "-modfile="+mod, "./cmd/instrument", "-repo", repo, "-out", filepath.Join(buildDir(repo), fmt.Sprintf("overlay-%d", os.Getpid())), "-json", ov, "-extras", filepath.Join(verifDir, "harness", "overlay"))
 		cmd.Dir = filepath.Join(verifDir, "harness")
 		cmd.Env = goEnv()
 		if outb, err := cmd.CombinedOutput(); err != nil {
@@ -203,7 +225,9 @@ func buildWorld(c partDef, repo string) string {
 		args = append(args, "-overlay="+ov)
 		name += ".ov"
 	}
-	bin := filepath.Join(verifDir, ".build", "bin", name+".test")
+	// build under a private name and move into place: another check may be executing the
+	// previous binary right now
+	bin := filepath.Join(buildDir(repo), "bin", fmt.Sprintf("%s.%d.test", name, os.Getpid()))
 	args = append(args, "-o", bin, "./worlds/"+c.World)
 	cmd := exec.Command(goBin(), args...)
 	cmd.Dir = filepath.Join(verifDir, "harness")
@@ -211,6 +235,7 @@ func buildWorld(c partDef, repo string) string {
 	if outb, err := cmd.CombinedOutput(); err != nil {
 		die2("build of world %s from %s failed: %v\n%s", c.World, repo, err, outb)
 	}
+	builtBins = append(builtBins, bin)
 	return bin
 }
 
@@ -245,6 +270,8 @@ func main() {
 				seen[k] = true
 				fmt.Printf("building world %s (race=%v overlay=%v)\n", c.World, c.Race, c.Overlay)
 				buildWorld(c, repo)
+				cleanupBuilt()
+				builtBins = nil
 			}
 		}
 		return
@@ -517,6 +544,8 @@ func main() {
 	}
 	fmt.Printf("%s %s seed=%d: %d scenarios, %d executions, %d distinct non-trivial, %d violation class(es), %d known finding(s), %.1fs (build %.1fs)\n",
 		c.ID, tier, seed, scen, execs, len(fps), len(seenClass), len(known), wall, buildS)
+	cleanupBuilt()
+	os.RemoveAll(runDir)
 	os.Exit(exit)
 }
 
@@ -649,6 +678,7 @@ func selftest(defs map[string]*checkDef, repo string, only []string) {
 			}
 		}
 	}
+	cleanupBuilt()
 	if fail > 0 {
 		os.Exit(1)
 	}
